@@ -309,6 +309,13 @@ WebSocketMsg WebSocket::receive()
 			return msg.fix();
 		}
 
+		if (opcode < 3 && len > 0x7ffffff0 - msg.length()) // the reassembled message would not fit an array: protocol error
+		{
+			_closed = true;
+			_socket.close();
+			return msg.fix();
+		}
+
 		// len is what the peer announced: the buffer grows as the payload actually arrives
 		for (int got = 0; got < len;)
 		{
